@@ -202,9 +202,10 @@ def run(ctx):
         inner = ctr[1] if ctr[0] == "slice" else None
         rng = None
         lenfield_ok = False
-        if ctr[0] == "slice" and is_const(ctr[2]) and is_const(ctr[3]):
-            rng = (ctr[2][1], ctr[3][1])
-            q = strip(ctr[1])
+        ar = abs_range(ctr) if ctr[0] == "slice" else None
+        if ar is not None and ar[0] != ctr:
+            rng = (ar[1], ar[2])          # constant slices compose: x[:-16][40:] is x[40:-16]
+            q = strip(ar[0])
             if q == ("param", dp):
                 lenfield_ok = True    # not cut: exact packets only; still consistent
             elif q[0] == "slice" and strip(q[1]) == ("param", dp) and q[2] is None and q[3] is not None:
